@@ -61,9 +61,8 @@ theorem readVarintAux_encodeAux : ∀ (fuel n : Nat), n ≤ fuel → ∀ (shift 
     intro n hn shift acc rest
     have : n = 0 := by omega
     subst this
-    have h1 : (UInt8.ofNat (0 % 128)).toNat = 0 := by decide
     rw [encodeVarintAux_zero]
-    simp [readVarintAux, h1, varintStreamMask, varintStreamCont]
+    simp [readVarintAux, varintStreamMask, varintStreamCont]
   | succ fuel ih =>
     intro n hn shift acc rest
     rw [encodeVarintAux_succ]
@@ -102,9 +101,8 @@ theorem decodeVarintAux_encodeAux : ∀ (fuel n : Nat), n ≤ fuel → ∀ (shif
     intro n hn shift acc rest
     have : n = 0 := by omega
     subst this
-    have h1 : (UInt8.ofNat (0 % 128)).toNat = 0 := by decide
     rw [encodeVarintAux_zero]
-    simp [decodeVarintAux, h1, varintDecMask, varintDecCont]
+    simp [decodeVarintAux, varintDecMask, varintDecCont]
   | succ fuel ih =>
     intro n hn shift acc rest
     rw [encodeVarintAux_succ]
@@ -1119,7 +1117,7 @@ theorem foldAdd_flattenVal {acc : Dict} {k : Bytes} (val : Val) (hk : k ∉ keys
       | none =>
         cases o with
         | none =>
-          simp only [Option.map_none, Option.toList, List.nil_append, Option.map_some, List.map_cons,
+          simp only [Option.map_none, Option.toList, Option.map_some, List.map_cons,
             List.map_nil, List.append_nil, foldAdd]
           rw [addEntry_first (hname ea 1) (Or.inl (hst ea 1 (by omega))) hk]
           simp [hst ea 1 (by omega)]
@@ -1140,8 +1138,8 @@ theorem foldAdd_flattenVal {acc : Dict} {k : Bytes} (val : Val) (hk : k ∉ keys
           rw [addEntry_next (hname et 2) (Or.inr (Or.inl (hst et 2 (by omega)))) hk]
           simp [hst et 2 (by omega)]
         | some eo =>
-          simp only [Option.map_none, Option.toList, List.nil_append, Option.map_some, List.map_cons,
-            List.map_nil, List.append_nil, List.cons_append, foldAdd]
+          simp only [Option.toList, List.nil_append, Option.map_some, List.map_cons,
+            List.map_nil, List.cons_append, foldAdd]
           rw [addEntry_first (hname ea 1) (Or.inl (hst ea 1 (by omega))) hk]
           simp only [hst ea 1 (by omega), if_true]
           rw [addEntry_next (hname et 2) (Or.inr (Or.inl (hst et 2 (by omega)))) hk]
